@@ -2,13 +2,15 @@ module verif/harness
 
 go 1.23.0
 
-require github.com/vedadiyan/genql v0.0.0
+require (
+	github.com/vedadiyan/genql v0.0.0
+	github.com/vedadiyan/sqlparser/v2 v2.0.3
+)
 
 require (
 	github.com/golang/glog v0.0.0-20160126235308-23def4e6c14b // indirect
 	github.com/planetscale/vtprotobuf v0.6.0 // indirect
 	github.com/spf13/pflag v1.0.5 // indirect
-	github.com/vedadiyan/sqlparser/v2 v2.0.3 // indirect
 	golang.org/x/sys v0.33.0 // indirect
 	google.golang.org/protobuf v1.33.0 // indirect
 )
